@@ -23,8 +23,8 @@ EXPLANATION = (
 )
 
 
-def run(ctx):
-    ctx.explanation = EXPLANATION
+def dispersion_rules(ctx):
+    """R07.1 closed forms and R07.2 Newton inverse (shared with C04: the peak wavenumber rests on this solver)"""
     p = ctx.program
     ctx.trust("np.where(c, a, b) selects elementwise", "np.all(x) is the conjunction over all elements")
     it = identity_hooks(Interp(p))
@@ -141,6 +141,16 @@ def run(ctx):
     ctx.expect(b.get("grav") == sp.Rational("9.81"), "R07.2", C + "[default gravity]", "default gravity 9.81", f.loc(),
                derived=b.get("grav"))
 
+    ctx.absorb(it)
+    ctx.absorb(it2)
+    return it, it2
+
+
+def run(ctx):
+    ctx.explanation = EXPLANATION
+    p = ctx.program
+    it, it2 = dispersion_rules(ctx)
+    k, d, g, w = P("k"), P("d"), P("g"), P("w")
     # R07.3 spectrum wiring
     KD = LD + "inverse_intrinsic_dispersion_relation"
     CG = LD + "intrinsic_group_velocity"
